@@ -320,7 +320,7 @@ def _is_tree(E, ids, pids, which):
             return z3.And(*reach)
     N = ids.nz()
     prow, sdepth, rr = E.spec_extra["prow"].f, E.spec_extra["sdepth"].f, to_z3(E.spec_extra["srootrow"], "int")
-    a, b = z3.Ints(fresh_name("a") + " " + fresh_name("b"))
+    a, b = z3.Ints("it_a it_b")  # fixed bound names: two constructions of a clause over the same table are the same term
     if which == "ids-distinct":
         return z3.ForAll([a, b], z3.Implies(z3.And(0 <= a, a < b, b < N), ids.get(a).z != ids.get(b).z))
     if which == "no-id-is-minus-one":
@@ -695,21 +695,17 @@ class Cat:
         self.adj = lambda p, q: z3.Or(g(self.B, "pid", p) == q, g(self.B, "pid", q) == p)
 
 
-def cts_post(E, v, o, which):
-    res = v["result"]
-    S, sg, inv = E.ghost["presort"]  # S: the concatenated table as handed to _sort_tree
-    T = ndata(S)
-    C = Cat(E, v, o)
+TABLE_CLAUSES = ("merged-iff-junctions-coincide", "first-tree-rows-unchanged", "second-tree-rows-are-a-shifted-translated-copy", "joined-at-the-junction",
+                 "no-other-edge-added", "no-edge-lost")
+
+
+def cts_table_clause(which, C, T, mgp):
+    """the clauses about the concatenated table T (bound variables carry fixed names: two constructions over the same table are the same term)"""
     A, B, n1, n2, a, b, g = C.A, C.B, C.n1, C.n2, C.a, C.b, C.g
-    if set(T) != set(A) or not all(type(T[c]) is SArr for c in T):
-        return False
     m = T["id"].nz()
-    remove = v["remove"]
-    mgp = remove is not None  # on this path
-    lens = z3.And(*[T[c].nz() == m for c in T])
     if which == "merged-iff-junctions-coincide":
-        return z3.And(lens, z3.If(C.merged, m == n1 + n2 - 1, m == n1 + n2), C.merged == z3.BoolVal(mgp))
-    i, j, x, y = (z3.Int(fresh_name(q)) for q in "ijxy")
+        return z3.And(*[T[c].nz() == m for c in T], z3.If(C.merged, m == n1 + n2 - 1, m == n1 + n2), C.merged == z3.BoolVal(mgp))
+    i, j, x, y = z3.Ints("ct_i ct_j ct_x ct_y")
     r1, r2 = z3.And(i >= 0, i < n1), z3.And(j >= 0, j < n2)
     if which == "first-tree-rows-unchanged":
         return z3.And(*[z3.ForAll([i], z3.Implies(r1, g(T, c, i) == g(A, c, i))) for c in A])
@@ -732,6 +728,19 @@ def cts_post(E, v, o, which):
     if which == "no-edge-lost":
         keep = z3.And(C.adj(x, y), x != b, y != b) if mgp else C.adj(x, y)
         return z3.ForAll([x, y], z3.Implies(z3.And(x >= 0, x < n2, y >= 0, y < n2, x != y, keep), z3.Or(P(x) == y + n1, P(y) == x + n1)))
+    raise KeyError(which)
+
+
+def cts_post(E, v, o, which):
+    res = v["result"]
+    S, sg, inv = E.ghost["presort"]  # S: the concatenated table as handed to _sort_tree
+    T = ndata(S)
+    C = Cat(E, v, o)
+    if set(T) != set(C.A) or not all(type(T[c]) is SArr for c in T):
+        return False
+    m = T["id"].nz()
+    if which in TABLE_CLAUSES:
+        return cts_table_clause(which, C, T, v["remove"] is not None)
     R_ = ndata(res)
     if set(R_) != set(T) or res is not v["tree"]:
         return False
@@ -794,27 +803,124 @@ def cts_after_list(E, v, o):
     return True
 
 
+def prove_from(E, label, hyps, goal):
+    """a proof step discharged from an explicit SUBSET of the facts already established on this path (sound: fewer hypotheses)"""
+    from pyvc.engine import Oblig
+
+    note = "annotation" + (f" [variant {E.variant}]" if getattr(E, "variant", "") else "")
+    goal = z3.simplify(goal)  # the form in which a clause reaches `prove` (clauses are simplified when they are evaluated): the later obligation is then this very term
+    E.obligs.append(Oblig(f"{E.prop}/{label}", list(hyps), goal, "annotation", note))
+    E.pc.append(goal)
+
+
+def cts_steps(E, vars, o, C, mgp):
+    """intermediate facts about the concatenated table T (local `tree`) and the shifted second table U (local `tree2`) just before sorting;
+    returns (facts proved from the whole path condition, facts proved from earlier facts only)"""
+    T, U = ndata(vars["tree"]), ndata(vars["tree2"])
+    A, B, n1, n2, a, b, g = C.A, C.B, C.n1, C.n2, C.a, C.b, C.g
+    r, j, p, q = z3.Ints("cs_r cs_j cs_p cs_q")
+    r2 = z3.And(j >= 0, j < n2)
+    m = (n1 + n2 - 1) if mgp else (n1 + n2)
+    row = lambda x: (n1 + x - z3.If(x > b, 1, 0)) if mgp else (n1 + x)
+    live = lambda x: (x != b) if mgp else z3.BoolVal(True)
+    pp = lambda x: g(U, "pid", x) - n1                     # parent of node x of tree2 after re-rooting at b
+    link = lambda x: (pp(x) == b) if mgp else (x == b)     # rows whose parent id is overwritten by node1
+    sd2 = _sd2(E, vars)
+    ty = z3.If(j == b, g(B, "type", C.root2), z3.If(j == C.root2, g(B, "type", b), g(B, "type", j)))
+    common = [c for c in T if c in U and c != "pid"]
+    jr = (r - n1 + z3.If(r - n1 >= b, 1, 0)) if mgp else (r - n1)   # the node of tree2 shown in row r >= n1
+    rr = z3.And(r >= n1, r < m)
+    full, derived = {}, {}
+    full["sizes"] = z3.And(to_z3(vars["ns"], "int") == n1, *[T[c].nz() == m for c in T], *[U[c].nz() == n2 for c in U])
+    full["first-tree-rows"] = z3.And(*[z3.ForAll([r], z3.Implies(z3.And(r >= 0, r < n1), g(T, c, r) == g(A, c, r))) for c in A])
+    for c in common:
+        full[f"second-tree-rows/{c}"] = z3.ForAll([r], z3.Implies(rr, g(T, c, r) == g(U, c, jr)))
+    full["second-tree-rows/tag"] = z3.ForAll([r], z3.Implies(rr, g(T, "tag", r) == 0))
+    full["second-tree-rows/pid"] = z3.ForAll([r], z3.Implies(rr, g(T, "pid", r) == z3.If(link(jr), a, g(U, "pid", jr))))
+    full["second-table-attributes"] = z3.ForAll([j], z3.Implies(r2, z3.And(
+        g(U, "id", j) == j + n1, g(U, "r", j) == g(B, "r", j), g(U, "type", j) == ty, *[g(U, c, j) == g(B, c, j) + C.off[c] for c in "xyz"])))
+    full["second-parent-table/root"] = z3.And(pp(b) == -1, sd2(b) == 0)
+    full["second-parent-table/parents"] = z3.ForAll([j], z3.Implies(z3.And(r2, j != b), z3.And(pp(j) >= 0, pp(j) < n2)))
+    dep = z3.ForAll([j], z3.Implies(z3.And(r2, j != b), z3.And(sd2(j) == sd2(pp(j)) + 1, sd2(j) > 0, sd2(pp(j)) >= 0)))
+    if any(nm == "redirect_tree" for nm, _ in E.call_log):
+        prow2 = E.spec_extra["prow2"].f
+        full["second-parent-table/parent-rows"] = z3.ForAll([j], z3.Implies(z3.And(r2, j != b), prow2(j) == pp(j)))
+        full["second-parent-table/witness"] = z3.ForAll([j], z3.Implies(r2, z3.And(sd2(j) >= 0, z3.Implies(j != b, sd2(j) == sd2(prow2(j)) + 1))))
+    else:
+        full["second-parent-table/parent-rows"] = z3.And(b == C.root2, z3.ForAll([j], z3.Implies(r2, pp(j) == g(B, "pid", j))))
+        full["second-parent-table/witness"] = z3.ForAll([j], z3.Implies(z3.And(r2, j != C.root2), z3.And(sd2(j) == sd2(g(B, "pid", j)) + 1, sd2(j) > 0)))
+    derived["second-parent-table/depths"] = dep
+    full["second-parent-table/edges"] = z3.ForAll([p, q], z3.Implies(z3.And(p >= 0, p < n2, q >= 0, q < n2), C.adj(p, q) == z3.Or(pp(p) == q, pp(q) == p)))
+    # pure index arithmetic: rows >= n1 and the live nodes of tree2 correspond one to one
+    derived["row-index-arithmetic"] = z3.And(z3.ForAll([r], z3.Implies(rr, z3.And(jr >= 0, jr < n2, live(jr), row(jr) == r))),
+                                             z3.ForAll([j], z3.Implies(z3.And(r2, live(j)), z3.And(row(j) >= n1, row(j) < m))))
+    derived["second-tree-rows"] = z3.ForAll([j], z3.Implies(z3.And(r2, live(j)), z3.And(
+        *[g(T, c, row(j)) == g(U, c, j) for c in common], g(T, "tag", row(j)) == 0, g(T, "pid", row(j)) == z3.If(link(j), a, g(U, "pid", j)))))
+    return full, derived
+
+
 def cts_sort_hint(E, vars):
-    """ghost witnesses for the precondition of _sort_tree on the concatenated table (definitions of fresh symbols): prow = the row that
-    carries the parent id, sdepth = depth in tree1 for tree1's rows, depth of the junction (+1 when not merged) + distance to the second
-    junction for tree2's rows"""
+    """before the precondition of _sort_tree on the concatenated table: (1) ghost witnesses (definitions of fresh symbols): prow(r) = the row
+    of r's parent (tree1's parent table for tree1's rows; node1 for the relinked rows; the row of the parent in the re-rooted tree2
+    otherwise), sdepth = depth in tree1 for tree1's rows, depth of the junction (+1 when not merged) + distance to the second junction for
+    tree2's rows; (2) proof steps: a description of the table, then every table clause and every precondition of sorting from that
+    description alone"""
     o = E.top_old
     if not isinstance(col(o["tree1"], "id"), SArr) or "remove" not in vars:
         return
     X = E.spec_extra
     prow, sdepth, depth1 = X["prow"].f, X["sdepth"].f, X["depth1"].f
     sd2 = _sd2(E, vars)
-    n1, a, b = nof(o["tree1"]), to_z3(o["node1"], "int"), to_z3(o["node2"], "int")
+    C = Cat(E, vars, o)
+    n1, n2, a, b, g = C.n1, C.n2, C.a, C.b, C.g
     mgp = vars["remove"] is not None
-    T = ndata(vars["tree"])
-    r = z3.Int(fresh_name("r"))
+    T, U = ndata(vars["tree"]), ndata(vars["tree2"])
+    r = z3.Int("cs_w")
     j = (r - n1 + z3.If(r - n1 >= b, 1, 0)) if mgp else (r - n1)     # node of tree2 shown in row r >= n1
-    pidv = z3.Select(T["pid"].arr, r)                                 # parent ID stored in row r
-    pj = pidv - n1                                                     # ... as a node of tree2
-    prow_def = z3.If(pidv < n1, pidv, (n1 + pj - z3.If(pj > b, 1, 0)) if mgp else pidv)
-    E.assume(z3.ForAll([r], prow(r) == prow_def))
-    E.assume(z3.ForAll([r], sdepth(r) == z3.If(r < n1, depth1(r), depth1(a) + sd2(j) + (0 if mgp else 1))))
-    E.assumptions.add("ghost definition (cat_tree, symbolic sizes): prow / sdepth of the concatenated table from the depth witnesses of the two trees")
+    pj = g(U, "pid", j) - n1                                          # its parent in the re-rooted tree2
+    linked = (pj == b) if mgp else (j == b)
+    rowof = (n1 + pj - z3.If(pj > b, 1, 0)) if mgp else (n1 + pj)
+    defs = [z3.ForAll([r], prow(r) == z3.If(r < n1, g(C.A, "pid", r), z3.If(linked, a, rowof)), patterns=[prow(r)]),
+            z3.ForAll([r], sdepth(r) == z3.If(r < n1, depth1(r), depth1(a) + sd2(j) + (0 if mgp else 1)), patterns=[sdepth(r)])]
+    for d in defs:
+        E.assume(d)
+    E.assumptions.add("ghost definition (cat_tree, symbolic sizes): prow / sdepth of the concatenated table from the parent tables and depth witnesses of the two trees")
+    full, derived = cts_steps(E, vars, o, C, mgp)
+    for nm, f in full.items():
+        E.prove(f"cat_tree/step/{nm}", f, "annotation")
+    ranges = [cts_pre(E, o, "junctions-are-nodes"), n1 >= 1, n2 >= 1]
+    prove_from(E, "cat_tree/step/second-parent-table/depths", [full[k] for k in full if k.startswith("second-parent-table/")] + ranges, derived["second-parent-table/depths"])
+    prove_from(E, "cat_tree/step/row-index-arithmetic", ranges, derived["row-index-arithmetic"])
+    prove_from(E, "cat_tree/step/second-tree-rows", ranges + [derived["row-index-arithmetic"]] + [f for nm, f in full.items() if nm.startswith("second-tree-rows/")], derived["second-tree-rows"])
+    base = list(full.values()) + list(derived.values()) + ranges + [cts_pre(E, o, "well-formed-inputs"), C.merged if mgp else z3.Not(C.merged)]
+    for w in TABLE_CLAUSES:
+        prove_from(E, f"cat_tree/step/table/{w}", base, cts_table_clause(w, C, T, mgp))
+    # the depth witness, case by case (tree1's rows / relinked rows / the other rows of tree2), then the clause itself from the cases
+    m = T["id"].nz()
+    root1 = to_z3(X["srootrow"], "int")
+    in1, in2 = z3.And(r >= 0, r < n1), z3.And(r >= n1, r < m)
+    step = sdepth(r) == sdepth(prow(r)) + 1
+    cases = {
+        "tree1-rows": z3.ForAll([r], z3.Implies(z3.And(in1, r != root1), z3.And(prow(r) >= 0, prow(r) < n1, step))),
+        "tree1-depths": z3.ForAll([r], z3.Implies(in1, z3.And(sdepth(r) == depth1(r), depth1(r) >= 0))),
+        "relinked-rows": z3.ForAll([r], z3.Implies(z3.And(in2, linked), z3.And(prow(r) == a, step))),
+        "other-rows-of-tree2": z3.ForAll([r], z3.Implies(z3.And(in2, z3.Not(linked)), z3.And(prow(r) >= n1, prow(r) < m, step))),
+        "depths-nonnegative": z3.ForAll([r], z3.Implies(z3.And(r >= 0, r < m), sdepth(r) >= 0)),
+    }
+    hyp = [full["sizes"], derived["row-index-arithmetic"], derived["second-parent-table/depths"]] + [f for nm, f in full.items() if nm.startswith("second-parent-table/")] + ranges + [cts_pre(E, o, "well-formed-inputs")] + defs
+    j2 = z3.Int("cs_j")
+    sd2nn = z3.ForAll([j2], z3.Implies(z3.And(j2 >= 0, j2 < n2), sd2(j2) >= 0))
+    prove_from(E, "cat_tree/step/depth/second-tree-depths-nonnegative", [full["second-parent-table/root"], derived["second-parent-table/depths"]], sd2nn)
+    for nm, f in cases.items():
+        if nm == "depths-nonnegative":
+            prove_from(E, f"cat_tree/step/depth/{nm}", [cases["tree1-depths"], sd2nn, full["sizes"], derived["row-index-arithmetic"], cases["tree1-depths"]] + ranges + defs[1:], f)
+        else:
+            prove_from(E, f"cat_tree/step/depth/{nm}", hyp, f)
+    for w in TREE_PRE:
+        hy = (list(cases.values()) + [full["sizes"], root1 >= 0, root1 < n1, sdepth(root1) == 0]) if w == "every-row-reaches-the-root" else (base + defs)
+        if w == "every-row-reaches-the-root":
+            prove_from(E, "cat_tree/step/depth/root", hyp, z3.And(root1 >= 0, root1 < n1, sdepth(root1) == 0))
+        prove_from(E, f"cat_tree/step/sortable/{w}", hy, _is_tree(E, T["id"], T["pid"], w))
 
 
 CTS_LOOPS = {1: dict(invariant=[cts_link_inv(w) for w in ("other-columns-untouched", "list-holds-the-shifted-children-in-row-order", "rows-listed-so-far-point-to-node1")],
